@@ -296,8 +296,13 @@ def evaluate(case):
     import bert_e.exceptions as exc
     from bert_e.workflow import gitwaterflow as gwf
     reg = registry()
-    settings = stubs.load_settings(robot=case['robot'],
-                                   admins=[ADMIN, ADMIN2])
+    # admins may be declared with an account id (`username@account_id`,
+    # the documented Bitbucket form) while the host reports plain usernames
+    if case.get('admin_form', 'plain') == 'account':
+        admins = [ADMIN + '@557058:acc-admin', ADMIN2 + '@557058:acc-admin2']
+    else:
+        admins = [ADMIN, ADMIN2]
+    settings = stubs.load_settings(robot=case['robot'], admins=admins)
     names = names_of(case)
     comments = [stubs.FakeComment(names[c['poster']], render(c), i + 1)
                 for i, c in enumerate(case['comments'])]
@@ -444,6 +449,7 @@ def check(case, rows, out, got, reg):
 def classes_of(case, rows, out, reg):
     cl = set()
     cl.add('cfg_' + case['cfg'])
+    cl.add('admin_form_' + case.get('admin_form', 'plain'))
     cl.add('len_%d' % len(rows))
     for r in rows:
         cl.add('poster_' + r['poster'])
@@ -485,7 +491,7 @@ def nontrivial(rows, reg):
 
 
 def key_of(case, texts):
-    return [case['cfg'], case['robot'],
+    return [case['cfg'], case['robot'], case.get('admin_form', 'plain'),
             [[c['poster'], t] for c, t in zip(case['comments'], texts)]]
 
 
@@ -714,6 +720,7 @@ def strategies(reg):
         return {'poster': poster, 'lead': lead, 'addr': addr, 'sep0': sep0,
                 'items': items, 'seps': seps, 'trail': trail}
 
+    s_admin_form = sf(['plain', 'plain', 'account'])
     s_cfg = sf(['A', 'A', 'A', 'B', 'B'])
     s_robot = sf([ROBOTS[0]] * 3 + [ROBOTS[1]])
     s_mood = sf(['wild'] * 4 + ['mixed'] * 2 + ['clean'] * 4)
@@ -724,7 +731,8 @@ def strategies(reg):
         cfg, robot, mood = draw(s_cfg), draw(s_robot), draw(s_mood)
         comments = [comment(draw, cfg, robot, mood)
                     for _ in range(draw(s_len))]
-        return {'cfg': cfg, 'robot': robot, 'comments': comments}
+        return {'cfg': cfg, 'robot': robot, 'comments': comments,
+                'admin_form': draw(s_admin_form)}
 
     words = reg['priv'] * 2 + reg['options'] + reg['commands'] + ['foo', '1']
     r_word = sf(words)
@@ -749,7 +757,8 @@ def strategies(reg):
                 out.append(draw(r_glue))
             comments.append({'poster': draw(r_posters[cfg]),
                              'text': ''.join(out)})
-        return {'cfg': cfg, 'robot': ROBOTS[0], 'comments': comments}
+        return {'cfg': cfg, 'robot': ROBOTS[0], 'comments': comments,
+                'admin_form': draw(s_admin_form)}
 
     return case(), raw_case()
 
@@ -921,7 +930,8 @@ def decode_bytes(data):
                          'text': chunk[1:].decode('utf-8', 'replace')})
     if not comments:
         return None
-    return {'cfg': cfg, 'robot': ROBOTS[0], 'comments': comments}
+    return {'cfg': cfg, 'robot': ROBOTS[0], 'comments': comments,
+            'admin_form': 'account' if data[0] & 2 else 'plain'}
 
 
 def ensure_atheris(home):
